@@ -330,6 +330,16 @@ def run(prog):
                         if not any(x[0] == "bin" and x[1] == "Add" for x in mir.subterms(v)):
                             errs.append("the non-relaxed case is not a sum")
                     else:
+                        for x in mir.subterms(v):
+                            if x[0] == "bin" and x[1] == "Mul":
+                                ops = [strip(x[2]), strip(x[3])]
+                                for side, fld in ((low, "0"), (high, "1")):
+                                    if side in ops:
+                                        w = [o for o in ops if o != side]
+                                        if w and w[0][0] == "field" and "var_weight" in show(w[0]) and w[0][2] != fld:
+                                            errs.append("in the relaxed (max/join) case the %s child is weighted with the %s weight: "
+                                                        "the bound is no longer an upper bound when that weight is the smaller one"
+                                                        % ("low" if side == low else "high", "high" if w[0][2] == "1" else "low"))
                         if not (has(v, lambda x: x == low) and has(v, lambda x: x == high)):
                             errs.append("the relaxed case does not take both children into account (%s)" % sv[:60])
                         if not has(v, lambda x: x[0] == "call" and x[1].name in ("max", "join", "choose")):
